@@ -409,6 +409,47 @@ fn on_step<K: Kit>(tier: &str, idx: usize, st: &mut PrmStep<K>, rep: &mut Report
     rep.sample(|| json!({"scenario": st.sc.tag, "samples": st.hist, "next": st.letter, "milestones": post.len(), "query": match &res { Ok(p) => format!("Ok({} states)", p.len()), Err(e) => format!("{e:?}") }}));
 }
 
+/// "Left unchanged by repeated construction calls" also after a construction that was cut short: the
+/// uniform sampler fails once at its k-th call (every k), construct_roadmap returns (with an error or
+/// not), and a second construct_roadmap call - the sampler working again, samples available - must leave
+/// a non-empty roadmap exactly as it is and draw nothing.
+fn interrupted_construction<K: Kit>(tier: &'static str, idx: usize, sc: &Scenario, rep: &mut Report) {
+    let b = base_of(sc.kit);
+    let depth = if tier == "quick" { 3 } else { 4 };
+    crate::explore::for_each_seq(&b.sub4, depth, &[], |seq| {
+        for k in 0..=seq.len() {
+            for kind in [0u8, 1] {
+                crate::explore::watch_desc(|| format!("{{\"scenario\": {:?}, \"samples\": {:?}, \"sampler_fails_at\": {k}}}", sc.tag, seq));
+                let r = guarded(|| {
+                    let mut rig = Rig::<K>::new(sc, true);
+                    rig.space.fail_at.set(Some((k, kind)));
+                    let first = rig.construct(seq);
+                    let s1 = rig.snapshot();
+                    let calls1 = rig.space.calls.get();
+                    // more samples are on offer for the second call
+                    rig.space.push_script(seq);
+                    let second = rig.drv.construct_roadmap();
+                    let s2 = rig.snapshot();
+                    (first.is_ok(), second.is_ok(), s1.key(), s2.key(), s1.node_count(), s2.node_count(), rig.space.calls.get() - calls1)
+                });
+                let Ok((ok1, _ok2, k1, k2, n1, n2, drawn)) = r else {
+                    rep.violate("C18|PRM|interrupted-construction-panicked".into(), "construct_roadmap unwound around a sampler failure".into(), || json!({"kind": "prm-interrupted", "prop": "C18", "scenario": sc.json(), "samples": seq, "sampler_fails_at": k}));
+                    return;
+                };
+                rep.count("interrupted_constructions", 1);
+                rep.count("traces_validated", 1);
+                if !ok1 {
+                    rep.count("interrupted_constructions_that_reported_an_error", 1);
+                }
+                if n1 > 0 && (k1 != k2 || drawn != 0) {
+                    rep.violate("C18|PRM|reconstruct-changed-roadmap|after-interrupted-construction".into(), format!("after a construction cut short by a sampler failure at call {k} ({n1} milestones), a second construct_roadmap call drew {drawn} samples and left {n2} milestones"), || json!({"kind": "prm-interrupted", "prop": "C18", "tier": tier, "scenario_index": idx, "scenario": sc.json(), "samples": seq, "sampler_fails_at": k, "kind_of_error": kind}));
+                    return;
+                }
+            }
+        }
+    });
+}
+
 fn run_one<K: Kit>(tier: &'static str, idx: usize, sc: &Scenario, letters: Option<&[u8]>, depth: Option<usize>) -> Report {
     let mut rep = Report::new();
     let letters: Vec<u8> = letters.map(|l| l.to_vec()).unwrap_or_else(|| (0..sc.alphabet.len() as u8).collect());
@@ -425,6 +466,9 @@ fn run_one<K: Kit>(tier: &'static str, idx: usize, sc: &Scenario, letters: Optio
     };
     let max_states = if tier == "quick" { 200_000 } else { 2_000_000 };
     bfs_prm::<K>(sc, &letters, depth, max_states, &mut rep, &step, &oc);
+    if sc.world.name == "subset0001" && depth_for(sc.kit, tier) == depth {
+        interrupted_construction::<K>(tier, idx, sc, &mut rep);
+    }
     rep
 }
 
@@ -468,7 +512,7 @@ pub fn run(tier: &'static str) -> i32 {
             "the roadmap is built by one construct_roadmap call whose logical-clock budget admits exactly the scripted samples".into(),
             "motions in the grey zone (an invalid stretch shorter than L) may be accepted or rejected".into(),
         ],
-        must_be_positive: vec!["milestones_added", "invalid_samples_discarded", "edges_added", "pairs_not_linked", "queries_ok", "queries_no_solution", "multi_hop_paths", "reconstruct_checks", "replaced_problem_queries"],
+        must_be_positive: vec!["milestones_added", "invalid_samples_discarded", "edges_added", "pairs_not_linked", "queries_ok", "queries_no_solution", "multi_hop_paths", "reconstruct_checks", "replaced_problem_queries", "interrupted_constructions", "interrupted_constructions_that_reported_an_error"],
     };
     finish(&meta, rep, t0)
 }
